@@ -58,7 +58,7 @@ POOL = ("pt_temp", "temp_0", "_temp", "x_dim0", "out0_dim0", "out_dim0", "acc_x"
         "out_0", "out0", "out1", "tmp", "n", "i0", "_x", "__pt", "pt_data",
         "_ptdata", "data_0", "in0", "in_0", "r0", "dim0", "out0_store",
         "insn", "_pt", "nm", "nm_0", "pf", "pf_0", "out0_dim0_0", "x0", "x1",
-        "_pt", "pt_", "_p", "__pt_temp", "call_pvf_rowsum", "pvf_rowsum_0",
+        "_pt", "pt_", "_p", "__pt_temp", "call_pvf_rowsum", "rowsum_0",
         "x_dim0_0", "store", "_store", "acc", "red", "sum_r0", "_sum_r0")
 RESERVED = ("_pt_temp", "_pt_temp_0", "_pt_data", "_pt_data_0", "_pt_out",
             "_pt_in", "_in0", "_in1", "_r0", "_0", "_1", "_pt_sum_r0",
@@ -174,6 +174,11 @@ def namings(draw, spec):
             tags[str(i)] = [["ImplSubstitution"], ["PrefixNamed", draw(
                 st.sampled_from(["_pt_subst", "x", "pt_temp"]))]]
     res = {"in": inn, "data": dn, "out": outn, "tags": tags, "mode": mode}
+    if mode == "adv" and draw(st.integers(0, 7)) == 0:
+        a, b = fresh(1.0), fresh(1.0)
+        res["twin_data"] = [a, b]
+    if mode == "adv" and draw(st.integers(0, 9)) == 0:
+        res["three_callees"] = True
     if extra is not None:
         res["extra_clash"] = extra
     return res
@@ -196,6 +201,36 @@ def renamed(spec, naming):
     s["outputs"] = outs
     for i, ts in naming["tags"].items():
         s["nodes"][int(i)]["tags"] = ts
+    if naming.get("twin_data"):
+        # ONE data object wrapped twice under two different names: both
+        # names must be bound (to that object)
+        k = len(s["nodes"])
+        for j, nm in enumerate(naming["twin_data"]):
+            s["nodes"].append({"op": "data", "p": {
+                "dtype": "float64", "shape": [3], "scale": 0,
+                "values": [1, 2, 3], "share": 7777},
+                "tags": [["Named", nm]]})
+        s["nodes"].append({"op": "mul", "args": [["n", k + 1], ["py", 2]]})
+        s["nodes"].append({"op": "add", "args": [["n", k], ["n", k + 2]]})
+        s["outputs"].append(["twin_out", k + 3])
+    if naming.get("three_callees"):
+        # three hand-written kernels of ONE name (pvf_rowsum), not all the
+        # same kernel: the code generator has to keep them apart
+        k = len(s["nodes"])
+        shapes = [[2, 3], [3, 2], [2, 3]]
+        for j, sh in enumerate(shapes):
+            s["nodes"].append({"op": "placeholder", "p": {
+                "name": f"rc{j}", "dtype": "float64", "shape": sh, "scale": 0,
+                "values": [j + 1 + q for q in range(6)]}})
+        for j in range(3):
+            s["nodes"].append({"op": "call_loopy", "args": [["n", k + j]],
+                               "p": {"kernel": "rowsum"}})
+        for j in range(3):
+            s["nodes"].append({"op": "item", "args": [["n", k + 3 + j]],
+                               "p": {"key": "rs"}})
+        s["nodes"].append({"op": "add", "args": [["n", k + 6], ["n", k + 8]]})
+        s["outputs"].append(["callee_sum", k + 9])
+        s["outputs"].append(["callee_mid", k + 7])
     ex = naming.get("extra_clash")
     if ex is not None:
         n = 1
@@ -560,14 +595,27 @@ def sym_oracle(case):
     outs = pt.transform.deduplicate(pt.make_dict_of_named_arrays(
         {names.get(f"out{k}", f"out{k}"): env[i]
          for k, i in enumerate(desc["outputs"])}))
-    user_names = {x.name for x in _inputs_of(outs) if x.name} | set(outs.keys())
+    ins = _inputs_of(outs)
+    user_names = {x.name for x in ins if x.name} | set(outs.keys())
+    by_name = {}
+    for x in ins:
+        if x.name:
+            by_name.setdefault(x.name, []).append(x)
+    clash = any(len(v) > 1 for v in by_name.values())
     try:
         knl = generate_and_compile(outs)
     except HarnessError:
         raise
     except Exception as e:  # noqa: BLE001
+        if clash and type(e).__name__ == "NameClashError":
+            info["rejected"] = "name clash (size parameter / placeholder)"
+            return None, info
         return Failure("naming-codegen-exception", f"{type(e).__name__}: "
                        f"{str(e)[:300]}", exc_site(e)), info
+    if clash:
+        return Failure("name-clash-accepted", "a placeholder and a size "
+                       "parameter (or two placeholders) share a name and "
+                       "code was generated", "clash"), info
     f = names_oracle(None, outs, knl, user_names, [])
     if f is not None:
         return f, info
@@ -580,9 +628,11 @@ def sym_oracle(case):
                 args[nm] = (r if nd["op"] == "in" else c16.input_values(
                     tuple(c16.axis_len(x, val) for x in nd["shape"]),
                     nd["seed"]))
+    import loopy as lp
     for p in ("n", "m"):
         nm = names.get(p, p)
-        if nm in knl.kernel.arg_dict:
+        if nm in knl.kernel.arg_dict and isinstance(knl.kernel.arg_dict[nm],
+                                                    lp.ValueArg):
             args[nm] = val[p]
     try:
         res = knl(**args)
@@ -654,6 +704,15 @@ def run_shard(shard: int, nshards: int, seed: int, tier: str) -> ShardResult:
                                     max_size=len(keys), unique=True))
         names = {k: c for k, c in zip(keys, chosen)
                  if data.draw(st.integers(0, 4)) > 0}
+        if data.draw(st.integers(0, 4)) == 0:
+            # a placeholder named like a size parameter
+            phs = [k for k in keys if not k.startswith("out")
+                   and k not in ("n", "m")]
+            if phs:
+                victim = data.draw(st.sampled_from(phs))
+                sp = data.draw(st.sampled_from(["n", "m"]))
+                names[victim] = names.get(sp, sp)
+                res.count("mode:symbolic-clash")
         case = {"sym": desc, "names": names}
         res.count("mode:symbolic")
         f, info = case_oracle(case)
